@@ -94,6 +94,29 @@ def check_tag(cls: int, constructed: bool, num: int) -> t.Optional[t.Tuple[str, 
     return None
 
 
+def check_tag_len(cls: int, constructed: bool, num: int, n: int) -> t.Optional[t.Tuple[str, str]]:
+    tag = asn1.ASN1Tag(asn1.TagClass(cls), num, constructed)
+    content = b"y" * n
+    w = asn1.ASN1Writer()
+    try:
+        w.write_octet_string(content, tag=tag)
+        got = bytes(w.get_data())
+    except BaseException as e:
+        return (f"taglen-write-raises:{K.exc_key(e)}", f"writing tag {cls}/{num} with {n} octets raised {type(e).__name__}: {e}")
+    exp = ber.enc_ident(cls, constructed, num) + ber.enc_len(n) + content
+    if got != exp:
+        return ("taglen-write-differs", f"tag {cls}/{num}/{constructed} with {n} octets written as {got[:12].hex()}.., expected {exp[:12].hex()}..")
+    r = _reader(exp + b"\x04\x01z")
+    try:
+        h = r.peek_header()
+        v = r.read_octet_string(tag=tag)
+    except BaseException as e:
+        return (f"taglen-read-raises:{K.exc_key(e)}", f"reading tag {cls}/{num} with {n} octets raised {type(e).__name__}: {e}")
+    if h.length != n or int(h.tag.tag_number) != num or h.tag_length != len(exp) - n or v != content or _rest(r) != b"\x04\x01z":
+        return ("taglen-read-differs", f"tag {cls}/{num}/{constructed} with {n} octets read back as {h}, {len(v)} octets")
+    return None
+
+
 def check_length(n: int) -> t.Optional[t.Tuple[str, str]]:
     content = b"x" * n
     w = asn1.ASN1Writer()
@@ -299,6 +322,13 @@ def _work(job: t.Tuple[str, int, int]) -> evid.Local:
             for cls in (1, 2, 3):
                 for cons in (False, True):
                     rec(check_tag(cls, cons, num), {"fam": "tag", "cls": cls, "num": str(num), "constructed": cons}, 3)
+    elif fam == "tags-long":
+        # multi-octet identifiers together with long-form lengths (each alone is covered above)
+        for num in (30, 31, 32, 127, 128, 1024, 16383, 16384, 2**21, 2**28):
+            for n in (127, 128, 255, 256, 1024, 65536):
+                for cls in (1, 2, 3):
+                    for cons in (False, True):
+                        rec(check_tag_len(cls, cons, num, n), {"fam": "taglen", "cls": cls, "num": str(num), "constructed": cons, "n": n}, 3)
     elif fam == "tags-universal":
         for num in range(0, 37):
             for cons in (False, True):
@@ -307,7 +337,7 @@ def _work(job: t.Tuple[str, int, int]) -> evid.Local:
         for n in range(lo, hi):
             rec(check_length(n), {"fam": "len", "n": n}, 3)
     elif fam == "lengths-big":
-        for n in (2**24 - 1, 2**24):
+        for n in (65535, 65536, 65537, 65536 + 256, 131072, 2**24 - 1, 2**24):
             rec(check_length(n), {"fam": "len", "n": n}, 3)
     elif fam == "bool":
         for o in range(256):
@@ -347,7 +377,7 @@ def run(ctx: evid.Ctx) -> None:
     for ln in range(1, (8 if thorough else 6) + 1):
         jobs += [("content-alpha", ln, first) for first in ALPHA6]
     jobs += [("tags", a, b) for a, b in par.split(len(_CFG["tagnums"]), 32)]
-    jobs += [("tags-universal", 0, 0)]
+    jobs += [("tags-universal", 0, 0), ("tags-long", 0, 0)]
     jobs += [("lengths", a, b) for a, b in par.split(70001 if thorough else 1101, 64)]
     jobs += [("lengths-big", 0, 0), ("bool", 0, 0), ("octets-dom", 0, 0)]
     jobs += [("octets", a, b) for a, b in par.split(65536, 16)]
@@ -392,6 +422,8 @@ def replay(case: t.Dict[str, t.Any], key: t.Optional[str] = None) -> t.Tuple[boo
         r = check_tag(case["cls"], case["constructed"], int(case["num"]))
     elif fam == "len":
         r = check_length(case["n"])
+    elif fam == "taglen":
+        r = check_tag_len(case["cls"], case["constructed"], int(case["num"]), case["n"])
     elif fam == "bool-octet":
         r = check_bool_octet(case["o"])
     elif fam == "bool":
